@@ -191,7 +191,7 @@ def X1(vc):
 
 
 # ----------------------------------------------------------------------------------------------- X6
-@harness('X6', targets='kopf._core.actions.invocation.invoke', props=['C09', 'C20', 'C11', 'C06'],
+@harness('X6', targets='kopf._core.actions.invocation.invoke', props=['C09', 'C20', 'C11', 'C06', 'C10'],
          clauses=['never_finishes_before_the_thread', 'cancellation_postponed_not_lost', 'result_or_error_passed_through',
                   'async_awaited_directly', 'kwargs_merged'],
          canaries=['canary.never_cancelled'],
